@@ -69,6 +69,52 @@ def resolve_attr(node, env):
     raise ValueError("unrecognised expression " + ast.dump(node))
 
 
+def probe_default_override_rule(table, init_defaults):
+    try:
+        from pptx.opc.packuri import PackURI
+        from pptx.opc.serialized import _ContentTypesItem
+
+        class _P:
+            def __init__(self, partname, content_type):
+                self.partname, self.content_type = PackURI(partname), content_type
+
+        exts = sorted({e for e, _ in table}) + ["zzz"]
+        singles = []
+        for e in exts:
+            cts = [ct for x, ct in table if x == e] + ["application/x-not-in-the-table"]
+            for variant in (e, e.upper()):
+                for ct in cts:
+                    singles.append(("/a/p1.%s" % variant, ct))
+        singles.append(("/a/noext", "application/x-not-in-the-table"))
+
+        def predict(parts):
+            d = {k.lower(): (k, v) for k, v in init_defaults}
+            o = {}
+            for pn, ct in parts:
+                ext = PackURI(pn).ext
+                if [c for x, c in table if x == ext.lower()] == [ct]:
+                    d[ext.lower()] = (d.get(ext.lower(), (ext, None))[0], ct)
+                else:
+                    o[pn] = ct
+            return sorted((k, v[1]) for k, v in d.items()), sorted(o.items())
+
+        def actual(parts):
+            d, o = _ContentTypesItem([_P(pn, ct) for pn, ct in parts])._defaults_and_overrides
+            return sorted((str(k).lower(), str(v)) for k, v in d.items()), sorted((str(k), str(v)) for k, v in o.items())
+
+        for s in singles:
+            if predict([s]) != actual([s]):
+                return False
+        import itertools
+        for a, b in itertools.islice(itertools.permutations(singles, 2), 0, None, 7):
+            b2 = (b[0].replace("p1", "p2"), b[1])
+            if predict([a, b2]) != actual([a, b2]):
+                return False
+        return True
+    except Exception:  # noqa
+        return False
+
+
 def main():
     unmodelled = []
     import pptx  # noqa: F401  (registers the part classes)
@@ -121,7 +167,17 @@ def main():
                 except ValueError as e:
                     unmodelled.append("initial defaults: %s" % e)
     if not found:
-        unmodelled.append("_ContentTypesItem._defaults_and_overrides: initial defaults not recognised")
+        # the source no longer spells the initial defaults as a keyword call: read them by running the
+        # function on no parts at all (the table it starts from is data, like default_content_types)
+        try:
+            from pptx.opc.serialized import _ContentTypesItem
+            d0, o0 = _ContentTypesItem([])._defaults_and_overrides
+            if dict(o0):
+                raise ValueError("overrides for no parts")
+            init_defaults = sorted((str(k), str(v)) for k, v in d0.items())
+            found = True
+        except Exception as e:  # noqa
+            unmodelled.append("_ContentTypesItem._defaults_and_overrides: initial defaults not recognised (%r)" % e)
     # the rule deciding Default vs Override, as modelled by in_table in model/Opc.v:
     #   ext_content_types = [ct for e, ct in default_content_types if e == ext.lower()]
     #   if ext_content_types == [content_type]: defaults[ext] = content_type  else: overrides[partname] = content_type
@@ -144,6 +200,13 @@ def main():
                 if body == ["defaults[ext] = content_type"] and orelse == ["overrides[partname] = content_type"]:
                     test_ok = True
         rule_ok = comp_ok and test_ok
+    if not rule_ok:
+        # the rule is no longer spelled the way the pattern above expects: decide by execution whether it still IS the
+        # single-type-per-extension rule that in_table (model/Opc.v) transcribes, on the whole decision grid
+        # (every extension of the table in both letter cases, an unknown extension, no extension) x (every content type the
+        # table gives that extension, one it does not), singly and in ordered pairs; C01's correspondence re-checks it
+        # on generated packages in every run
+        rule_ok = probe_default_override_rule(table, init_defaults)
     if not rule_ok:
         unmodelled.append("_ContentTypesItem._defaults_and_overrides: Default/Override rule is not the single-type-per-extension rule modelled by in_table")
 
